@@ -56,7 +56,7 @@ CHECKS = {
          "DESIGN.md §3 C07"),
  "C08": ("model_checking",
          "explicit-state exhaustive search over call/respond (by addressed provider, other provider, stranger, duplicate)/pause/start/kill/update (by consumer and stranger)/block sequences with a request-status and batch-schedule reference model; module callbacks registered on the real keeper and counted from emitted events",
-         "Every sequence up to the depth bound: each request is answered once by its provider while active or expires at its expiration height, never both; foreign/duplicate/late answers are rejected; one-shot contexts issue one batch and are removed; an unmodified running repeated context issues batch n+1 exactly its frequency after batch n below its total and nothing while paused (also not in the block that auto-pauses it for lack of funds); only the consumer controls a context; the registered callback fires exactly once per completed batch with success iff outputs >= threshold.",
+         "Every sequence up to the depth bound: each request is answered once by its provider while active or expires at its expiration height, never both; foreign/duplicate/late answers are rejected; one-shot contexts issue one batch and are removed; an unmodified running repeated context issues batch n+1 exactly its frequency after batch n below its total, never a batch beyond its total whatever pauses and starts came before (part total-boundary), and nothing while paused (also not in the block that auto-pauses it for lack of funds); only the consumer controls a context; the registered callback fires exactly once per completed batch with success iff outputs >= threshold.",
          "DESIGN.md §3 C08"),
  "C14": ("model_checking",
          "explicit-state exhaustive search over issue/mint/edit/transfer/burn/transfer-class sequences by creator, owner and stranger on the real NFT keeper for all four restriction-flag combinations, reference ownership/metadata model compared through the queries after every message",
